@@ -347,6 +347,7 @@ class _WFile:
         self._guard = threading.Lock()
         self._in_write = 0
         self._nwritten = 0
+        self._last_write_len = 0
 
     def write(self, data):
         w = self._osu.w
@@ -358,7 +359,17 @@ class _WFile:
                 self._osu.overlap.append(threading.current_thread().name)
         try:
             f = d.point(key, 'before')
-            if f is not None:
+            if f is not None and f['kind'] == 'stall':
+                # a destination that stalls for a while (busy disk, NFS hiccup) and then takes the data: nothing fails
+                d.note_raised(f, key, 'before', stalled=f.get('secs', 2.5))
+                with d._lock:
+                    d.sleeping += 1
+                try:
+                    time.sleep(f.get('secs', 2.5))
+                finally:
+                    with d._lock:
+                        d.sleeping -= 1
+            elif f is not None:
                 raise_for(f, d, key, 'before', oserr=True)
             try:
                 off = self._f.tell()
@@ -366,6 +377,7 @@ class _WFile:
                 off = self._nwritten
             r = self._f.write(data)
             self._nwritten += len(data)
+            self._last_write_len = len(data)
             # deliberately no flush: the directory monitor must see what another process would see
             ev = w.log.add('fs.write', label=self.label, path=self.name, offset=off, nbytes=len(data))
             self._osu.writes.append((ev['n'], ev['thread'], self.name, off, len(data)))
@@ -400,6 +412,13 @@ class _WFile:
         key = d.occurrence(f'{self.label}/fs:close')
         f = d.point(key, 'before')
         if f is not None:
+            # a close that fails while flushing (ENOSPC, EDQUOT, EIO): what was still buffered - here the last write - never reaches the file
+            try:
+                self._f.flush()
+                if self._last_write_len:
+                    self._f.truncate(max(0, os.fstat(self._f.fileno()).st_size - self._last_write_len))
+            except (OSError, ValueError):
+                pass
             self._f.close()
             w.log.add('fs.close', label=self.label, path=self.name, raised=True)
             raise_for(f, d, key, 'before', oserr=True)
